@@ -374,8 +374,8 @@ def run(ctx: Ctx) -> None:
             ctx.probe("corrupted-member-still-valid" if ok else "corrupted-member-refused")
         else:
             ctx.check(P, "signature-verifies", ok, lambda: f"honest member {i} on {w.label} refused on arrival (bindings={st.backend()})", site="arrival")
-        if w.bip and w.ref_verifies and (i == victim or ch.chance(1, 6, "ref-verify?")):
-            w.ref_verifies -= 1
+        if w.bip and (i == victim or (w.ref_verifies and ch.chance(1, 6, "ref-verify?"))):
+            w.ref_verifies -= i != victim  # the corrupted member always gets the reference verdict
             want = _reference_verdict(m)
             ctx.check(P, "verify-matches-bip340", ok == want, lambda: f"{m.note} member: verify_ says {ok}, BIP340 says {want} (bindings={st.backend()})", site=m.note.split(":")[0])
         verdicts.append(ok)
